@@ -46,8 +46,14 @@ src: conf.c
 enforce: spifconf_register_builtin
 backend: z3,sat
 timeout: 150
-native: register
-native_includes: conf.c
+*/
+/*@unit
+name: register_builtin_grow
+define: U_BUILTIN, U_BLT_GROW, U_PRESERVE, VERIF_REALLOC_ELEM_T=spifconf_func_t
+src: conf.c
+enforce: spifconf_register_builtin
+backend: z3,sat
+timeout: 150
 */
 #include "vprelude.h"
 #ifdef U_CONTEXT
@@ -123,9 +129,18 @@ void harness(void)
 #endif
 
 #ifdef U_BUILTIN
+/* The table is terminated by a NULL name: spifconf_shell_expand scans `for (k = 0; builtins[k].name; k++)`.
+ * Behaviour split: U_BLT_GROW = this registration fills the last free slot and the table grows;
+ * the other unit covers every registration that leaves the capacity alone. */
 unsigned char spifconf_register_builtin(char *name, spifconf_func_ptr_t ptr)
 __CPROVER_requires(BLTTAB_INV && builtin_idx < 255)
 __CPROVER_requires(VCSTR_FRESH(name, vg_n1))
+__CPROVER_requires(builtins[builtin_idx].name == NULL)
+#ifdef U_BLT_GROW
+__CPROVER_requires((unsigned int) builtin_idx + 1 == builtin_cnt)
+#else
+__CPROVER_requires((unsigned int) builtin_idx + 1 != builtin_cnt && builtins[builtin_idx + 1].name == NULL)
+#endif
 __CPROVER_assigns(builtins, builtin_idx, builtin_cnt, __CPROVER_object_whole(builtins))
 __CPROVER_frees(builtins)
 __CPROVER_ensures(BLTTAB_POST)
@@ -134,13 +149,14 @@ __CPROVER_ensures(builtin_idx == __CPROVER_old(builtin_idx) + 1 && __CPROVER_ret
 __CPROVER_ensures(vg_k != __CPROVER_old(builtin_idx) || (builtins[vg_k].ptr == ptr && builtins[vg_k].name != NULL))
 #ifdef U_PRESERVE
 __CPROVER_ensures(vg_k >= __CPROVER_old(builtin_idx) ||
-                  (builtins[vg_k].ptr == __CPROVER_old(builtins[vg_k].ptr) && builtins[vg_k].name == __CPROVER_old(builtins[vg_k].name)))
+                  (builtins[vg_k].ptr == __CPROVER_old(builtins[VIDX(vg_k, builtin_idx)].ptr) && builtins[vg_k].name == __CPROVER_old(builtins[VIDX(vg_k, builtin_idx)].name)))
 #endif
+/* the table is still terminated by a NULL name right after the last entry */
+__CPROVER_ensures(builtins[builtin_idx].name == NULL)
 ;
 void harness(void)
 {
     char *name; spifconf_func_ptr_t p = nondet_ptr();
-    __CPROVER_assume(vg_k <= builtin_idx);
     w_idx = builtin_idx; w_cnt = builtin_cnt;
     spifconf_register_builtin(name, p);
     VERIF_CANARY();
